@@ -469,7 +469,9 @@ func judgeProg(w *core.W, c *progCase) {
 			return map[string]interface{}{"program": c.Body, "flat_expansion": fl.out}
 		})
 	}
-	w.Sample(func() interface{} { return map[string]interface{}{"program": c.Body, "flat_registrations": len(fl.out)} })
+	w.Sample(func() interface{} {
+		return map[string]interface{}{"program": c.Body, "flat_registrations": len(fl.out)}
+	})
 	_ = reflect.DeepEqual
 }
 
